@@ -54,6 +54,15 @@ def Call.isWrite : Call → Bool
   | .listDatabases .. => false
   | _ => true
 
+/-- argument validation performed before `Begin` (collection.go: validateReplacement) -/
+def Call.prevalidationFails : Call → Bool
+  | .replaceOne _ _ repl _ => (validateReplacement repl).toBool == false
+  | .findOneAndReplace _ _ repl _ _ _ _ => (validateReplacement repl).toBool == false
+  | .bulkWrite _ models _ => models.any fun m => match m with
+      | .replaceOne _ r _ => (validateReplacement r).toBool == false
+      | _ => false
+  | _ => false
+
 inductive SReply where
   | ok (r : Reply)
   | done
@@ -112,7 +121,9 @@ def SSys.step (sch : SchemaEval) (s : SSys) : SCall → SSys × SReply
         | .ok (t', nu, r) =>
           ({ (s.setSess k { (s.sess k) with txn := some t' }) with sys := { s.sys with nextId := nu.nextId } }, .ok r)
     | none =>
-      if c.isWrite && s.holder.isSome then (s, .blocked)
+      -- validateReplacement runs before Begin: such calls fail at once even while the slot is held
+      if c.prevalidationFails then (s, .failed .err)
+      else if c.isWrite && s.holder.isSome then (s, .blocked)
       else
         match s.sys.step sch c oids with
         | .error e => (s, .failed e)
